@@ -30,6 +30,17 @@ fn main() {
         _ => runeparse::answer(&toks),
       };
       out.emit(line, &ans);
+      // a stored parser request also gets its soundness oracle evaluated on the answer the
+      // implementation gives *now* (an oracle line stored in a file embeds a past answer)
+      if args.stream == "runeparse" {
+        if let [op, h] = toks.as_slice() {
+          if let Some(kind) = op.strip_prefix("runeparse.") {
+            if !kind.starts_with("oracle.") && ans != "bad-op" {
+              out.emit(&format!("runeparse.oracle.{kind} {h} {}", util::colon(&ans)), "true");
+            }
+          }
+        }
+      }
     }
   } else {
     match args.stream.as_str() {
